@@ -22,4 +22,4 @@ CONSTANTS
   ParentOf <- Chain
   Ops = {"res", "suspend", "remove", "delete"}
 CONSTANTS
-  MaxApi = 12
+  MaxApi = 8
